@@ -54,14 +54,17 @@ def gen_program(rng, meta, n=None, kinds=None):
             cur[kind][orig] = x
         return x
 
-    if "placement" in kinds and meta.get("place") and rng.random() < 0.2:
+    if "placement" in kinds and meta.get("place") and rng.random() < 0.3:
         # a placement scenario: per-cell data of one kind move to the other block, then one cell's datum is edited
         key = rng.choice(["imp", "imp", "vol", "u"])
+        if meta["place"].get("imp") == "data" and rng.random() < 0.6:
+            key = "imp"
         if key == "imp" and meta["place"].get("imp") != "data":
             key = "vol"       # (importances only move from the data block to the cells: see _placement_plain)
         prog.append({"kind": "placement", "key": key, "data_block": meta["place"].get(key) != "data"})
         c = rng.choice(meta["cells"])
         if key == "imp":
+            c = meta["cells"][0] if rng.random() < 0.5 else c     # (the first cell: every other cell is written after it)
             prog.append({"kind": "importance", "orig": c, "particle": rng.choice(meta["particles"]),
                          "value": rng.choice([0.0, 2.0, 4.0, 0.5, 8.0])})
         elif key == "vol":
